@@ -4,6 +4,7 @@
 use libfuzzer_sys::fuzz_target;
 
 fuzz_target!(|data: &[u8]| {
+    gbcheck::engine::fuzz_init();
     if let Err(f) = gbcheck::checks::c01::fuzz_block(data) {
         gbcheck::engine::fuzz_violation("C01", &f.sig, gbcheck::checks::c01::fuzz_block_json(data), &f.detail);
     }
